@@ -10,7 +10,7 @@ from rv import core, fcsgen, layouts
 from rv.refmodels import textseg
 
 LEVEL = 'exploration'
-RULE = ('(i) all strings over {delimiter,a,b} up to length L (quick L=10, thorough L=13), primary and '
+RULE = ('(i) all strings over {delimiter,a,b} up to length L (quick L=10, thorough L=14), primary and '
         'supplemental, against an independent left-to-right tokenizer (exhaustive); (ii) random keyword '
         'dictionaries over a rich alphabet x printable delimiters, encoded with the doubling rule then decoded; '
         '(iii) files with primary + supplemental TEXT + ANALYSIS. non-trivial = string contains a delimiter run '
@@ -21,7 +21,7 @@ ASSUMPTIONS = ['reference tokenizer rv/refmodels/textseg.py encodes the FCS esca
 MIN_CHECKS = {'quick': 250000, 'thorough': 5000000}
 EXHAUSTIVE = {'quick': True, 'thorough': True}
 TIMEOUT_S = {'quick': 600, 'thorough': 3600}
-L = {'quick': 10, 'thorough': 13}
+L = {'quick': 10, 'thorough': 14}
 
 
 def call_reader(FlowCal, raw, delim, supplemental, explicit_delim):
@@ -107,7 +107,7 @@ def run(ctx):
     ctx.samples.append({'exhaustive_block_example': '/a//b/a', 'alphabet': syms, 'max_len': Lmax})
     # ---- (ii) encode/decode round trip --------------------------------------
     delims = [chr(c) for c in range(33, 127)] + ['\t', '\x0c', '\x1e', ' ']
-    nrt = 6000 if ctx.tier == 'quick' else 150000
+    nrt = 6000 if ctx.tier == 'quick' else 400000
     for cid, rng in ctx.cases([('rt', i) for i in range(nrt)]):
         delim = delims[int(rng.integers(len(delims)))]
         d = rand_dict(rng, delim)
@@ -131,7 +131,7 @@ def run(ctx):
                       nontrivial=has_delim, distinct_key=core.digest(raw, delim, supp),
                       sample={'delim': delim, 'dict': d, 'raw': raw} if cid[1] < 2 else None)
     # mutated encodings (random damage) vs reference
-    nmut = 6000 if ctx.tier == 'quick' else 150000
+    nmut = 6000 if ctx.tier == 'quick' else 400000
     for cid, rng in ctx.cases([('mut', i) for i in range(nmut)]):
         delim = delims[int(rng.integers(len(delims)))]
         d = rand_dict(rng, delim, 5)
@@ -152,7 +152,7 @@ def run(ctx):
         ctx.case_done(class_key=('mutated', 'supp' if supp else 'primary', cls), nontrivial=True,
                       distinct_key=core.digest(raw, delim, supp))
     # ---- (iii) file level ------------------------------------------------------
-    nfile = 300 if ctx.tier == 'quick' else 6000
+    nfile = 300 if ctx.tier == 'quick' else 20000
     path = os.path.join(ctx.tmpdir, 'c14.fcs')
     cells = [c for c in layouts.lattice() if c[0] != 'FCS2.0']
     for cid, rng in ctx.cases([('file', i) for i in range(nfile)]):
